@@ -109,7 +109,7 @@ theorem toItems_syl_pos {f : Forest} (hf : f.WF) : ∀ it ∈ f.toItems, 0 < it.
     simp only [Forest.toItems, List.mem_cons] at h
     rcases h with h | h
     · subst h; exact hf.1
-    · exact ih hf.2.2.2.2.2.2 it h
+    · exact ih hf.2.2.2.2.2.2.2 it h
 
 /-- a record view `w` stands for the queued item `k` -/
 def KidRep (recs : List Rec) (data : Bytes) (w : Rec) (k : Item) : Prop :=
@@ -121,7 +121,7 @@ def Rep (recs : List Rec) (data : Bytes) (v : Rec) (it : Item) : Prop :=
 
 theorem Item.WF.kids_ne_nil {s : Nat} {l : Option (List Phrase)} {sub : Forest} (h : (Item.node s l sub).WF) :
     (Item.node s l sub).kids ≠ [] := by
-  obtain ⟨_, _, _, h4, _⟩ := h
+  obtain ⟨_, _, _, _, h4, _⟩ := h
   simp only [Item.kids, kidsOf_eq]
   rcases h4 with h4 | h4
   · cases l with
@@ -145,7 +145,7 @@ theorem KidRep.rep {recs : List Rec} {data : Bytes} {w : Rec} {k : Item} (h : Ki
 theorem matchSyl_ne_zero {st : Strategy} {n syl : Nat} (hsyl : syl ≠ 0) (h : matchSyl st n syl = true) : n ≠ 0 := by
   cases st with
   | standard => simp [matchSyl] at h; omega
-  | fuzzyPartialPrefix => simp [matchSyl] at h; exact h.1
+  | fuzzyPartialPrefix => simp [matchSyl] at h; exact h.1.1
 
 /-- the children of a thread: in bounds, and the views are the records of the node's queue entries -/
 theorem rep_children {recs : List Rec} {data : Bytes} {v : Rec} {s : Nat} {l : Option (List Phrase)} {sub : Forest}
